@@ -62,7 +62,7 @@ def check_case(case):
     from BPTK_Py.util import timerange
 
     start_s, dt_s, n = case["start"], case["dt"], case["n"]
-    parts = case.get("parts", ["timerange", "plot", "batch", "session", "routes"])
+    parts = case.get("parts", ["timerange", "plot", "batch", "session", "routes", "inline", "regrid"])
     grid = ref_grid(start_s, dt_s, n)
     start, dt, stop = grid[0], float(dt_s), grid[-1]
     vs = []
@@ -140,6 +140,58 @@ def check_case(case):
         finally:
             b.destroy()
 
+    if "inline" in parts and n >= 3:
+        # stocks whose rate is written inline with time-dependent operators: the rate of interval i is taken at grid point i
+        m, s, c = build()
+        k = n // 2
+        w = m.stock("w")
+        w.initial_value = 0.0
+        w.equation = sd.step(1.0, grid[k])
+        u = m.stock("u")
+        u.initial_value = 0.0
+        u.equation = sd.time()
+        got_w = [float(x) for x in w.plot(return_df=True)["w"]]
+        got_u = [float(x) for x in u.plot(return_df=True)["u"]]
+        want_w = [dt * max(0, i - 1 - k) for i in range(n + 1)]
+        want_u, acc = [], 0.0
+        for i in range(n + 1):
+            want_u.append(acc)
+            acc += dt * grid[i]
+        for nm, got, want in (("step", got_w, want_w), ("time", got_u, want_u)):
+            if len(got) != len(want) or any(abs(g - w_) > 1e-9 * max(1.0, abs(w_)) for g, w_ in zip(got, want)):
+                pos = next((i for i, (g, w_) in enumerate(zip(got, want)) if abs(g - w_) > 1e-9 * max(1.0, abs(w_))), min(len(got), len(want)))
+                vs.append(Violation("inline-rate:" + nm, "start=%s dt=%s n=%d: stock with inline %s%s is %r at %r (index %d), one Euler step per grid interval gives %r"
+                                    % (start_s, dt_s, n, nm, "(1, %r)" % grid[k] if nm == "step" else "()", got[pos] if pos < len(got) else None,
+                                       grid[pos] if pos < len(grid) else None, pos, want[pos] if pos < len(want) else None)))
+
+    if "regrid" in parts and 1 <= n <= 40:
+        # the scenario is simulated on its grid, then a session brings a finer dt as settings: the new grid must be exact as well
+        d2 = Decimal(dt_s) / 2
+        grid2 = [float(str(Decimal(start_s) + i * d2)) for i in range(2 * n + 1)]
+        b = bptk()
+        try:
+            m, s, c = build()
+            b.register_model(m, scenario_manager="smG")
+            b.run_scenarios(scenarios=["base"], scenario_managers=["smG"], equations=["s", "c"], return_format="df")
+            b.begin_session(scenarios=["base"], scenario_managers=["smG"], equations=["s", "c"],
+                            settings={"smG": {"base": {"runspecs": {"dt": float(str(d2))}}}})
+            keys, vals, svals = [], [], []
+            for _ in range(2 * n + 5):
+                r = b.run_step()
+                if r is None or "msg" in r:
+                    break
+                keys.extend(float(x) for x in r["smG"]["base"]["c"].keys())
+                vals.extend(float(x) for x in r["smG"]["base"]["c"].values())
+                svals.extend(float(x) for x in r["smG"]["base"]["s"].values())
+            b.end_session()
+            if _cmp("regrid-session-keys", keys, grid2, vs, case):
+                _cmp("regrid-time-values", vals, grid2, vs, case)
+                want_s = [1.0 + 2.0 * float(str(d2)) * i for i in range(2 * n + 1)]
+                if len(svals) == len(want_s) and any(abs(a - w_) > 1e-9 * max(1, abs(w_)) for a, w_ in zip(svals, want_s)):
+                    vs.append(Violation("regrid-stock-steps", "after dt %s -> %s the stock values are %r expected %r" % (dt_s, d2, svals[:4], want_s[:4])))
+        finally:
+            b.destroy()
+
     if "routes" in parts:
         m, s, c = build()
         acc = start
@@ -214,9 +266,11 @@ def run_shard(spec, ctx):
         def cases():
             for start in STARTS:
                 for n in range(0, spec["nmax"] + 1):
-                    parts = ["timerange", "plot", "batch", "routes"]
+                    parts = ["timerange", "plot", "batch", "routes", "inline"]
                     if n <= spec["smax"]:
                         parts.append("session")
+                    if n <= 12 or n % 7 == 0:
+                        parts.append("regrid")
                     yield {"start": start, "dt": spec["dt"], "n": n, "parts": parts}
         ctx.enum(cases(), body)
         ctx.exhaustive = True
